@@ -222,6 +222,62 @@ func nearMissCases() []*RejectCase {
 			out = append(out, rc)
 		}
 	}
+	// variadic providers: the slice type of the variadic parameter is a dependency like any
+	// other — nothing, the element type, an array, or a pointer to the slice do not satisfy it
+	for vi, have := range []string{"nothing", "element", "array", "ptr-to-slice", "slice-of-ptr", "slice"} {
+		for _, fixed := range []int{0, 1, 2} {
+			n++
+			b := NewPB(fmt.Sprintf("nv%02d", n), "app")
+			opt := b.Carrier(0, "Option")
+			need := SliceOf(opt)
+			var items []*Item
+			var ps []*Ty
+			for k := 0; k < fixed; k++ {
+				ft := b.Carrier(0, fmt.Sprintf("Fixed%d", k))
+				fp := b.Func(0, fmt.Sprintf("NewFixed%d", k), ft, false, false)
+				fp.Stub = true
+				items = append(items, fp)
+				ps = append(ps, ft)
+			}
+			ps = append(ps, need)
+			srv := b.Carrier(0, "Server")
+			f := b.Func(0, "NewServer", srv, false, false, ps...)
+			f.Variadic = true
+			f.Stub = true
+			items = append(items, f)
+			var hv *Ty
+			switch have {
+			case "element":
+				hv = opt
+			case "array":
+				hv = ArrayOf(1, opt)
+			case "ptr-to-slice":
+				hv = PtrTo(SliceOf(opt))
+			case "slice-of-ptr":
+				hv = SliceOf(PtrTo(opt))
+			case "slice":
+				hv = need
+			}
+			if hv != nil {
+				h := b.Func(0, "NewHave", hv, false, false)
+				h.Stub = true
+				items = append(items, h)
+			}
+			b.Inj("Init", srv, false, false, nil, refs(items...)...)
+			cell := fmt.Sprintf("nearmiss:variadic/have=%s/fixed=%d", have, fixed)
+			b.P.Note = cell
+			b.P.Feat = map[string]string{"nearmiss": "variadic-" + have, "pos": fmt.Sprint(fixed)}
+			rc := &RejectCase{P: b.P, Class: "missing", MustName: []string{DiagName(b.P, need)}, Cell: cell}
+			if have == "slice" {
+				rc = &RejectCase{P: b.P, Control: true, Cell: cell}
+			} else if hv != nil {
+				// the unrelated provider is also unused; wire reports the missing type first
+				rc.Class = "missing"
+			}
+			_ = vi
+			out = append(out, rc)
+		}
+	}
 	return out
 }
 
